@@ -23,7 +23,37 @@ def _son_loop(fn):
     for lp in ast.walk(fn):
         if isinstance(lp, ast.For) and "sons" in ast.unparse(lp.iter):
             return lp
+    # the loop that makes the recursive call (whatever it iterates: an index range, a reversed order kept in a local)
+    for lp in ast.walk(fn):
+        if isinstance(lp, ast.For) and any(isinstance(c, ast.Call) and isinstance(c.func, ast.Attribute) and
+                                           c.func.attr == getattr(fn, "name", None) for c in ast.walk(lp)):
+            return lp
     return None
+
+
+def delegate(fn, helpers):
+    """`return self._worker(flag)` with a constant flag: (worker node, {parameter: constant}) - the two listings may be
+    one private function specialised by a boolean"""
+    for r in ast.walk(fn):
+        if isinstance(r, ast.Return) and isinstance(r.value, ast.Call):
+            c = r.value
+            nm = c.func.attr if isinstance(c.func, ast.Attribute) else getattr(c.func, "id", None)
+            h = (helpers or {}).get(nm) if nm and nm.startswith("_") else None
+            if h is None:
+                continue
+            params = [a.arg for a in h.args.posonlyargs + h.args.args]
+            if isinstance(c.func, ast.Attribute) and params:
+                params = params[1:]
+            fixed = {}
+            for prm, a in zip(params, c.args):
+                if isinstance(a, ast.Constant) and isinstance(a.value, bool):
+                    fixed[prm] = a.value
+            for kw in c.keywords:
+                if kw.arg and isinstance(kw.value, ast.Constant) and isinstance(kw.value.value, bool):
+                    fixed[kw.arg] = kw.value.value
+            if fixed:
+                return h, fixed
+    return None, None
 
 
 def _accumulator(fn, loop):
@@ -103,8 +133,9 @@ def _update_kind(stmt, acc, names):
     return None
 
 
-def update_table(fn):
-    """(table, why): table = frozenset of (valuation of the atoms that guard accumulator updates, executed kinds)"""
+def update_table(fn, fixed=None):
+    """(table, why): table = frozenset of (valuation of the atoms that guard accumulator updates, executed kinds);
+    `fixed` = {parameter: bool} values the function is specialised by (its tests on those parameters are decided)"""
     loop = _son_loop(fn)
     if loop is None:
         return None, "no loop over the sons"
@@ -116,6 +147,11 @@ def update_table(fn):
     models = assignments(atoms)
     if models is None:
         return None, "too many branch conditions"
+    if fixed:
+        fk = {k: fixed[a.id] for k, a in atoms.items() if isinstance(a, ast.Name) and a.id in fixed}
+        models = [m for m in models if all(m[k] == v for k, v in fk.items())]
+        atoms = {k: a for k, a in atoms.items() if k not in fk}
+        models = [{**m} for m in models]
 
     def run(block, asg, out):
         for s in block:
@@ -138,7 +174,8 @@ def update_table(fn):
         for asg in models:
             flipped = dict(asg)
             flipped[key] = not asg[key]
-            if rows[tuple(sorted(asg.items()))] != rows[tuple(sorted(flipped.items()))]:
+            if tuple(sorted(flipped.items())) in rows and \
+                    rows[tuple(sorted(asg.items()))] != rows[tuple(sorted(flipped.items()))]:
                 deciding.add(key)
     table = set()
     for asg in models:
